@@ -691,8 +691,10 @@ def rename_map(old, new):
         if ot != nt:
             return {}
         if on != nn:
-            if on in cur or (on in m and m[on] != nn):
+            if on in m and m[on] != nn:
                 return {}
+            # (the old name may still exist: a variable that shadowed another one of the same name was renamed; the
+            #  contract's name is then re-bound only where the renamed variable is the innermost of the two, see spec_env)
             m[on] = nn
     return m
 
